@@ -187,9 +187,10 @@ def check_case(case):
                 p2 = ssort(e_l) == ssort(lits) and ssort(dedupe_fterms(e_n)) == ssort(nums)
                 g_exp = ssort((g[0], None if g[1] is None else tuple(ssort(dedupe_fterms(g[1]))), g[2], g[3], tuple(ssort(dedupe_fterms(g[4])))) for g in e_groups)
                 g_got = ssort((g[0], None if g[1] is None else tuple(g[1]), g[2], g[3], tuple(g[4])) for g, _ in groups)
-                if p2 and g_exp == g_got:
-                    pre_ok = eff_ok = True
+                if (not pre_ok and p2) or (not eff_ok and g_exp == g_got):
                     res.known.append(F_FREPEAT)
+                pre_ok = pre_ok or p2                    # judged separately: a deviation in the effects must not
+                eff_ok = eff_ok or g_exp == g_got        # be reported as one in the preconditions, and vice versa
             if pre_ok and eff_ok:
                 if k3:
                     res.known.append(S.F_NESTED)
